@@ -111,7 +111,9 @@ def run(tier):
                 bad = []
                 for pn in rec.panics:
                     c = pn.get('cond')
-                    if c is None or decide_cmp(c, pn.get('pc', ())) is not True:
+                    if not FR.pc_feasible(pn.get('pc', ())):
+                        continue                # the panic sits behind a condition no argument satisfies (an assertion that always holds)
+                    if c is None or (decide_cmp(c, pn.get('pc', ())) is not True and FR.truth(c)[1]):
                         w = panic_witness(c, pn.get('pc', ()), formals) if c is not None else None
                         bad.append(f"{pn.get('msg')} at line {pn.get('ln')} can fail" + (f" (e.g. for argument(s) {w})" if w else f": {str(c)[:100]}"))
                 for ob in rec.obligations:
